@@ -18,14 +18,14 @@ def main():
     tier = sys.argv[5] if len(sys.argv) > 5 and sys.argv[4] == "--tier" else "quick"
     checks = os.environ.get("SEED_CHECKS", pid).split(",")
     meta = json.load(open(os.path.join(src, "meta.json")))
-    demo_files = [f for f in os.listdir(src) if f not in ("patch.diff", "meta.json")]
+    demo_files = [f for f in os.listdir(src) if f.endswith(".go") or os.path.isdir(os.path.join(src, f))]
     wt = "/tmp/sv_%s_%s" % (pid, label)
     sh("git -C /repo worktree remove --force %s" % wt, "/")
     rc, out = sh("git -C /repo worktree add --detach %s HEAD" % wt, "/")
     assert rc == 0, out
     res = {"property": pid, "label": label, "repo_head": sh("git -C /repo rev-parse --short HEAD", "/")[1].strip()}
     try:
-        place = meta.get("demo_place", "")
+        place = (meta.get("demo_place", "") or "").split()[0] if meta.get("demo_place") else ""
         cmd = meta.get("demo_cmd", "")
 
         def put_demo():
